@@ -5,6 +5,7 @@ import (
 	"encoding/json"
 	"fmt"
 	"os"
+	"os/exec"
 	"path/filepath"
 	"sort"
 	"strconv"
@@ -239,6 +240,17 @@ func cmdCheck(args []string) int {
 		fmt.Printf("VIOLATION property=%s replay=%s no-failing-input-found\n", o.prop, rp.path)
 		fmt.Printf("  VACUOUS %s\n", v)
 	}
+	// bounded stand-ins for trusted contracts on third-party code (labelled bounded; never counted as discharged)
+	standins := runStandins(o)
+	for _, sres := range standins {
+		if ok, _ := sres["ok"].(bool); !ok {
+			violations++
+			ob := &Obligation{Func: "bounded", Label: "stand-in", Kind: "bounded", Clause: fmt.Sprint(sres["name"]), Status: "failed", Output: fmt.Sprint(sres["output"])}
+			rp := writeReplay(o, replayDir, "bounded/"+sanitize(fmt.Sprint(sres["name"])), ob, out)
+			fmt.Printf("VIOLATION property=%s replay=%s\n", o.prop, rp.path)
+			fmt.Printf("  bounded stand-in failed: %v\n", sres["name"])
+		}
+	}
 	total := len(order)
 	level := "proof"
 	openFindings := []string{}
@@ -279,6 +291,7 @@ func cmdCheck(args []string) int {
 		"samples":                  samples,
 		"vacuity_checks":           map[string]any{"requires_satisfiable_failed": vacuity, "obligations_nonzero": total > 0},
 		"known_findings_open":      openFindings,
+		"bounded_standins":         standins,
 		"engine_errors":            engineErrs,
 		"contract_files":           relFiles(out.specs.Files, o),
 		"evaluations":              len(all),
@@ -390,4 +403,43 @@ func min(a, b int) int {
 		return a
 	}
 	return b
+}
+
+// runStandins executes the bounded stand-ins registered for the property (bounded/standins.json).
+func runStandins(o *options) []map[string]any {
+	raw, err := os.ReadFile(filepath.Join(o.verif, "bounded", "standins.json"))
+	if err != nil {
+		return nil
+	}
+	var table map[string][]struct {
+		Name     string   `json:"name"`
+		Bin      string   `json:"bin"`
+		Quick    []string `json:"quick"`
+		Thorough []string `json:"thorough"`
+		For      string   `json:"stands_in_for"`
+		Bound    string   `json:"bound"`
+	}
+	if err := json.Unmarshal(raw, &table); err != nil {
+		return []map[string]any{{"name": "standins.json", "ok": false, "output": err.Error()}}
+	}
+	var out []map[string]any
+	for _, s := range table[o.prop] {
+		args := s.Quick
+		if o.tier == "thorough" {
+			args = s.Thorough
+		}
+		t0 := time.Now()
+		cmd := exec.Command(s.Bin, args...)
+		b, err := cmd.CombinedOutput()
+		res := map[string]any{"name": s.Name, "stands_in_for": s.For, "bound": s.Bound, "args": args, "label": "bounded (not a proof)",
+			"ok": err == nil, "wall_s": time.Since(t0).Seconds()}
+		var parsed map[string]any
+		if json.Unmarshal(b, &parsed) == nil {
+			res["result"] = parsed
+		} else {
+			res["output"] = trunc(string(b), 1000)
+		}
+		out = append(out, res)
+	}
+	return out
 }
